@@ -22,19 +22,18 @@ from vf import gen_pytree as pt
 from vf.runner import Violation
 
 EPS = np.finfo(np.float64).eps
-# Calibration on the unchanged tree (seeds 1-3 quick + 1 thorough, see evidence 'worst_*'): worst observed ratios were
-#   forward error of J      : 3.0  (unit eps * (|U||U|^T + tr Sigma on the diagonal))
-#   round trip theta        : 6.1  (unit eps * cond(J))
-#   compiled mass/ipos      : 2.0  (unit eps, relative)
-# K = ~100x the worst, fixed here.
+# Calibration on the unchanged tree (thorough seed 1: 300k theta vectors + 5k applies; quick seeds 1-3), worst observed:
+#   forward error of J      : 1.46  (unit eps * (|U||U|^T, plus tr Sigma on the diagonal))      -> K_FWD  = 400
+#   round trip theta        : 4.07  (unit eps * cond(J))                                         -> K_RT   = 800
+#   compiled mass / ipos    : 0     (bit-exact so far; unit eps, relative)                       -> K_MASS = 256
 # Compiled inertia tensor: the engine diagonalises the full inertia with mju_eig3, whose Jacobi sweep stops when the
 # rotation cosine exceeds 1-1e-12 (src/engine/engine_util_solve.c, eigEPS), i.e. it leaves a rotation error up to
 # ~1.5e-6 rad -> R diag(I) R^T is only accurate to ~3e-6*|I| BY DESIGN of the (installed) compiler.  Worst observed
-# 6e-7 relative; REL_INERTIA = 1e-4 (>=100x) relative to the cancellation scale |I_origin| + m|c|^2.
+# 1.56e-6 relative to the cancellation scale |I_origin| + m|c|^2; REL_INERTIA = 2e-4 (~130x).
 K_FWD = 400
 K_RT = 800
 K_MASS = 256
-REL_INERTIA = 1e-4
+REL_INERTIA = 2e-4
 COND_MAX = 1e12     # beyond this the float J is not reliably positive definite (Cholesky fails from cond ~4e16):
                     # labelled 'illconditioned'; only the cond-independent assertions (a) are made
 
@@ -290,7 +289,7 @@ def main(ck):
     if cond <= 1e3:     # the compiler's 1e-6 eigen-decomposition error is amplified by cond(J): only judged when small
       worst['rt_body'] = max(worst['rt_body'], rr)
     if cond <= 1e3 and rr > 1:
-      raise Violation('theta -> body -> compile -> theta: error %.3g = %.3g * 1e-4*cond; theta=%r back=%r' % (
+      raise Violation('theta -> body -> compile -> theta: error %.3g = %.3g * REL_INERTIA*cond; theta=%r back=%r' % (
           float(np.max(np.abs(back - theta))), rr, v, back.tolist()), bucket='body-roundtrip')
     ck.case(nontrivial=nt, key=(xml, target, v), labels=['apply', 'apply:nbody=%d' % n, 'apply:' + labels[0]],
             sample=dict(xml=xml, body=name, theta=v, compiled_mass=float(model.body_mass[bid]),
